@@ -94,6 +94,34 @@ def call(ex, path, via, name, m, kw=None):
     return live[0].value, live[0].path
 
 
+def case_from_model(detail):
+    """a quantifier-free model of a refuted obligation on the (2,2) matrix fixes the four cells (and alpha): the concrete input"""
+    from fractions import Fraction
+    import re
+    cells = []
+    for k in "abcd":
+        v = detail.get("m_" + k)
+        if v is None and ("M_" + k) in detail:
+            # abstract-shape obligations: constant arrays K(Int, v) are usable, anything else is not turned into an input
+            m_ = re.fullmatch(r"K\(Int, (-?[0-9/.]+)\)", str(detail["M_" + k]).strip())
+            if not m_:
+                return None
+            v = m_.group(1)
+        if v is None:
+            v = "0"
+        cells.append(float(Fraction(str(v).replace(" ", "").replace("(", "").replace(")", "").replace("-/", "-"))))
+    al = detail.get("alpha")
+    alphas = [0.05]
+    if al is not None:
+        try:
+            a_ = float(Fraction(str(al)))
+            if 0 < a_ < 1:
+                alphas = [a_]
+        except Exception:
+            pass
+    return {"matrix": [[cells[0], cells[1]], [cells[2], cells[3]]], "float": True, "alphas": alphas}
+
+
 def build_for(shape, via):
     obs = []
     ex = new_exec()
@@ -102,7 +130,9 @@ def build_for(shape, via):
     tag = f"[{via},{shape}]"
 
     def ob(name, goal, hyps=None, kind="post"):
-        obs.append(Oblig(f"C04/{name}{tag}", list(hyps if hyps is not None else path.pc), goal, kind, ("C04",), {"key": f"C04/{name}"}))
+        meta = {"key": f"C04/{name}"}
+        meta["case_from_model"] = case_from_model
+        obs.append(Oblig(f"C04/{name}{tag}", list(hyps if hyps is not None else path.pc), goal, kind, ("C04",), meta))
     vals = {}
     names = list(BASIC) + list(RATES) + list(COMPL) + list(ALIAS)
     if via == "ConfusionMatrix":
